@@ -265,3 +265,14 @@ Definition type_layout (c : cfg) (t : ty) : result lay :=
 Definition lay_eqb (a b : result lay) : bool :=
   result_eqb (fun x y => list_eqb (option_eqb Z.eqb) (l_offs x) (l_offs y) && option_eqb Z.eqb (l_size x) (l_size y)
                          && (l_align x =? l_align y)) a b.
+(* comparison used for the COMPILED reader: which error is raised first on malformed input may differ between the readers *)
+Definition rvz_eqb_coarse (a b : result (value * Z)) : bool :=
+  result_eqb_coarse (fun x y => value_eqb (fst x) (fst y) && (snd x =? snd y)) a b.
+(* The compiled reader reads a block of fields at once: on an input too short for the structure it may raise EOFError where
+   the interpreted reader still returns a value whose extent reaches beyond the input (zero-length members / padding past the end).
+   C03 allows that; everything else must agree. *)
+Definition rvz_eqb_compiled (len : Z) (model impl : result (value * Z)) : bool :=
+  match impl, model with
+  | Err EEof, Ok (_, p) => len <? p
+  | _, _ => rvz_eqb_coarse model impl
+  end.
